@@ -556,4 +556,311 @@ example : longestQuorumPrefix syTbl [1, 2, 3] (fun _ => [7, 8]) = [7, 8] :=
 
 end GeneralInputs
 
+/-! ## AUDIT2 M1 / M4: the base clause without a shared-base hypothesis; quiet honest members
+
+M1. The property's clause "the decided chain starts at the base that participant entered the instance with" is local
+and unconditional: `receiveOne` refuses a vote on another base before it reaches any tally (gpbft.go:224-228).
+`validity_model_base` above derives it only when *all* honest inputs share a base. `decision_starts_at_own_base` is the
+local statement for any run of the instance model, with no hypothesis on what is delivered; `validity_model_base_own`
+is `validity_model_base` without `hbase`.
+
+M4. `validity_model_quiet`: the same for networks in which honest members may never begin the instance. -/
+section Audit2
+open F3.Instance F3.Bridge F3.Audit2
+
+/-- **The decision is on the participant's own base** — for every configuration, table, input chain and every list of
+`Start` / `Receive` / `ReceiveAlarm` calls whatsoever (unvalidated, Byzantine, any order): a reported decision is
+bottom or starts at the tipset the participant's input chain starts at. -/
+theorem decision_starts_at_own_base (cfg : Cfg) (t : Table) (input : Chain) (ops : List Op) (d : Just)
+    (hd : (run (init cfg t input) ops).1.termination = some d) :
+    d.value = [] ∨ d.value.head? = input.head? :=
+  decision_on_own_base cfg t input ops d hd
+
+/-- … and when every delivery is validated (or foreign, hence refused) it is not bottom, so it starts exactly there -/
+theorem validated_decision_starts_at_own_base (W : Instance.Votes) (cfg : Cfg) (t : Table) (input : Chain)
+    (ops : List Op) (hv : ∀ op ∈ ops, foreign op = true ∨ OpValidG W t op) (d : Just)
+    (hd : (run (init cfg t input) ops).1.termination = some d) :
+    d.value ≠ [] ∧ d.value.head? = input.head? := by
+  refine decision_head_own_base W cfg t input ops ?_ d hd
+  intro op hop
+  rcases hv op hop with h | h
+  · cases op with
+    | recv now m => exact Or.inl h
+    | start _ => trivial
+    | alarm _ => trivial
+  · exact opValidG_toF h
+
+/-- **`validity_model_base` without `hbase`**: in every `Network`, whatever the bases of the other honest members'
+inputs, a decision reported by honest `p` is not bottom and starts at the base of `p`'s own input. -/
+theorem validity_model_base_own {t : Table} {F : Finset Pid} {W : Instance.Votes} (N : Network t F W)
+    (p : Pid) (hp : p ∈ (ids t).toFinset) (hpF : p ∉ F) (d : Just)
+    (hd : (run (init (N.runs p hp hpF).cfg t (N.runs p hp hpF).input) (N.runs p hp hpF).ops).1.termination = some d) :
+    d.value ≠ [] ∧ d.value.head? = (N.runs p hp hpF).input.head? := by
+  have hne := (model_validity N p hp hpF d hd).1
+  rcases decision_on_own_base _ t _ _ d hd with h | h
+  · exact absurd h hne
+  · exact ⟨hne, h⟩
+
+/-- consequence: the honest member whose input the decision is a prefix of entered the instance on `p`'s base — so
+`hbase` of `validity_model_base` is needed for *no* pair of honest members one of which decides a prefix of the
+other's input -/
+theorem validity_model_supporter_shares_base {t : Table} {F : Finset Pid} {W : Instance.Votes} (N : Network t F W)
+    (p : Pid) (hp : p ∈ (ids t).toFinset) (hpF : p ∉ F) (d : Just)
+    (hd : (run (init (N.runs p hp hpF).cfg t (N.runs p hp hpF).input) (N.runs p hp hpF).ops).1.termination = some d) :
+    ∃ h, ∃ hh : h ∈ (ids t).toFinset, ∃ hF : h ∉ F, d.value <+: (N.runs h hh hF).input ∧
+      (N.runs h hh hF).input.head? = (N.runs p hp hpF).input.head? := by
+  obtain ⟨hne, h, hh, hF, hpre⟩ := model_validity N p hp hpF d hd
+  refine ⟨h, hh, hF, hpre, ?_⟩
+  obtain ⟨_, hhead⟩ := validity_model_base_own N p hp hpF d hd
+  obtain ⟨tl, htl⟩ := hpre
+  rw [← hhead, ← htl]
+  cases hv : d.value with
+  | nil => exact absurd hv hne
+  | cons a l => rfl
+
+/-- `validity_model_base` is a corollary (kept for comparison) -/
+example {t : Table} {F : Finset Pid} {W : Instance.Votes} (N : Network t F W) (b : Nat)
+    (hbase : ∀ h (hh : h ∈ (ids t).toFinset) (hF : h ∉ F), (N.runs h hh hF).input.head? = some b)
+    (p : Pid) (hp : p ∈ (ids t).toFinset) (hpF : p ∉ F) (d : Just)
+    (hd : (run (init (N.runs p hp hpF).cfg t (N.runs p hp hpF).input) (N.runs p hp hpF).ops).1.termination = some d) :
+    d.value.head? = some b := by
+  rw [(validity_model_base_own N p hp hpF d hd).2]; exact hbase p hp hpF
+
+/-- **Validity with no hypothesis on errors (`NetworkV`)**, base clause included. -/
+theorem validity_model_unconditional {t : Table} {F : Finset Pid} {W : Instance.Votes} (N : NetworkV t F W)
+    (p : Pid) (hp : p ∈ (ids t).toFinset) (hpF : p ∉ F) (d : Just)
+    (hd : (run (init (N.runs p hp hpF).cfg t (N.runs p hp hpF).input)
+      (.start (N.runs p hp hpF).start :: (N.runs p hp hpF).ops)).1.termination = some d) :
+    d.value ≠ [] ∧ d.value.head? = (N.runs p hp hpF).input.head? ∧
+    ∃ h, ∃ hh : h ∈ (ids t).toFinset, ∃ hF : h ∉ F, d.value <+: (N.runs h hh hF).input :=
+  ⟨(validity_model_base_own N.toNetwork p hp hpF d hd).1, (validity_model_base_own N.toNetwork p hp hpF d hd).2,
+    (model_validity N.toNetwork p hp hpF d hd).2⟩
+
+/-- **Validity with honest members that never begin the instance (`NetworkV'`, AUDIT2 M4).** A decision reported by
+an honest member is not bottom, starts at that member's own base, and is a prefix of the input chain of an honest
+member **that began the instance**. -/
+theorem validity_model_quiet {t : Table} {F : Finset Pid} {W : Instance.Votes} (N : NetworkV' t F W)
+    (p : Pid) (hp : p ∈ (ids t).toFinset) (hpF : p ∉ F) (d : Just)
+    (hd : (run (init (N.runs p hp hpF).cfg t (N.runs p hp hpF).input) (N.runs p hp hpF).ops).1.termination = some d) :
+    d.value ≠ [] ∧ d.value.head? = (N.runs p hp hpF).input.head? ∧
+    ∃ h, ∃ hh : h ∈ (ids t).toFinset, ∃ hF : h ∉ F, ¬ (N.runs h hh hF).quiet ∧ d.value <+: (N.runs h hh hF).input :=
+  model_validity_quiet N p hp hpF d hd
+
+open F3.Msg F3.Spec.ValidMsg F3.ValidBridge in
+/-- **Validity from assumptions about key usage only** (see `C01.agreement_from_key_usage`). -/
+theorem validity_from_key_usage {Signed : Nat → SigMsg → Prop} {Wire : Msg.Msg → Prop} {net inst supp : Nat}
+    {c : Committee} {F : Finset Pid} {runs : SignedRuns Wire net inst supp c F}
+    (K : KeyUsage Signed Wire net inst supp c F runs) (hu : (c.entries.map (·.id)).Nodup)
+    (hT : 0 < c.total) (hF : 3 * (∑ p ∈ F, (tableOf c).power p) < c.total)
+    (p : Pid) (hp : p ∈ (ids (tableOf c)).toFinset) (hpF : p ∉ F) (d : Instance.Just)
+    (hd : (run (init (runs p hp hpF).cfg (tableOf c) (runs p hp hpF).input) (runs p hp hpF).ops).1.termination = some d) :
+    d.value ≠ [] ∧ d.value.head? = (runs p hp hpF).input.head? ∧
+    ∃ h, ∃ hh : h ∈ (ids (tableOf c)).toFinset, ∃ hhF : h ∉ F,
+      (runs h hh hhF).ops ≠ [] ∧ d.value <+: (runs h hh hhF).input :=
+  validity_signed K hu hT hF p hp hpF d hd
+
+/-! ### non-vacuity -/
+
+/-- `validity_model_base_own` / `validity_model_unconditional` on the example network: member 1 decides `[7, 8]`, which
+starts where its input `[7, 8]` starts. -/
+example : ∃ d, (run (init (exNetV.runs 1 (by decide) (by decide)).cfg exTbl (exNetV.runs 1 (by decide) (by decide)).input)
+      (.start (exNetV.runs 1 (by decide) (by decide)).start :: (exNetV.runs 1 (by decide) (by decide)).ops)).1.termination
+        = some d ∧ d.value ≠ [] ∧ d.value.head? = (exNetV.runs 1 (by decide) (by decide)).input.head? := by
+  obtain ⟨d, hd, _⟩ := ex_networkV_decides
+  exact ⟨d, hd, (validity_model_unconditional exNetV 1 (by decide) (by decide) d hd).1,
+    (validity_model_unconditional exNetV 1 (by decide) (by decide) d hd).2.1⟩
+
+/-- `validity_model_quiet` on the network with a quiet honest member (`F3.Audit2.qNet`). -/
+example : ∃ d, (run (init (qNet.runs 1 (by decide) (by decide)).cfg exTbl (qNet.runs 1 (by decide) (by decide)).input)
+      (qNet.runs 1 (by decide) (by decide)).ops).1.termination = some d ∧ d.value = [7, 8] ∧
+    (qNet.runs 3 (by decide) (by decide)).quiet ∧
+    ∃ h, ∃ hh : h ∈ (ids exTbl).toFinset, ∃ hF : h ∉ exF, ¬ (qNet.runs h hh hF).quiet ∧ d.value <+: (qNet.runs h hh hF).input := by
+  obtain ⟨d, hd, hv⟩ := qNet_facts.2.2.2.2.1
+  exact ⟨d, hd, hv, qNet_facts.1, (validity_model_quiet qNet 1 (by decide) (by decide) d hd).2.2⟩
+
+/-- `decision_starts_at_own_base` with *unvalidated* deliveries: (a) two DECIDEs on a foreign base are refused
+(`wrongBase`), nothing is tallied or decided; (b) the same two DECIDEs on the own base — unjustified, unvalidated — do
+terminate the instance, on the own base as the theorem says. -/
+example :
+    let bad : List Op :=
+      [.start 0, .recv 1 { sender := 1, round := 0, phase := .decide, value := [9, 9] },
+       .recv 2 { sender := 2, round := 0, phase := .decide, value := [9, 9] },
+       .recv 3 { sender := 3, round := 0, phase := .decide, value := [9, 9] }]
+    let own : List Op :=
+      [.start 0, .recv 1 { sender := 1, round := 0, phase := .decide, value := [7, 5] },
+       .recv 2 { sender := 2, round := 0, phase := .decide, value := [7, 5] },
+       .recv 3 { sender := 3, round := 0, phase := .decide, value := [7, 5] }]
+    (run (init exCfg exTbl [7, 8]) bad).1.termination = none ∧
+    (run (init exCfg exTbl [7, 8]) bad).1.decision.support = [] ∧
+    ((run (init exCfg exTbl [7, 8]) own).1.termination.map (·.value)) = some [7, 5] := by decide
+
+end Audit2
+
+/-! ## AUDIT2 M3: the synchronous theorems with a non-degenerate table
+
+`F3.Net` has no validator, and `ctx_of` asks of the table only `hq : strongQ tbl (Σ_H power)`. Two degenerate cases
+slip through (examples below, from the audit's E4):
+* a member of `H` with **zero** scaled power: its votes are pool messages, `execOk` admits delivering them,
+  `complete` / `SyncOrdered` *require* handing them to everybody — but no validator lets them through
+  (`MsgValid` needs `0 < power`, validator.go:213-216), so no real run is such an execution;
+* an **all-zero** table: `strongQ _ 0 = true` when `total = 0`, `hq` holds trivially, and a node decides on its own
+  votes alone.
+The `_pos` variants add `0 < tbl.total` and `∀ p ∈ H, 0 < tbl.power p` and conclude, in addition, that every message
+ever broadcast comes from a table member with positive power (the validator's sender check passes for everything the
+net delivers) and that `hq` is then a real two-thirds bound on a non-empty `H`. (That the *justifications* carried by
+pool messages aggregate a strong quorum of existing votes — the rest of `MsgValid` — is not part of the `Sync`
+invariant and is not shown here.) -/
+section Audit2Sync
+open F3.Instance F3.Net
+
+/-- with a positive total the quorum hypothesis is a real bound: `H` is not empty and holds ≥ 2/3 of the total -/
+theorem quorum_nondegenerate (tbl : Table) (H : List Pid) (hT : 0 < tbl.total)
+    (hq : strongQ tbl ((H.map tbl.power).sum) = true) :
+    H ≠ [] ∧ 0 < (H.map tbl.power).sum ∧ 3 * (H.map tbl.power).sum ≥ 2 * tbl.total := by
+  have h : 3 * (H.map tbl.power).sum ≥ 2 * tbl.total := by
+    unfold strongQ F3.Spec.Quorum.strong at hq
+    simp only [decide_eq_true_eq] at hq
+    exact_mod_cast hq
+  refine ⟨?_, by omega, h⟩
+  rintro rfl
+  simp at h
+  omega
+
+/-- with `total = 0` everything is a strong quorum -/
+theorem strongQ_of_total_zero (tbl : Table) (h0 : tbl.total = 0) (p : Nat) : strongQ tbl p = true := by
+  unfold strongQ F3.Spec.Quorum.strong
+  simp only [decide_eq_true_eq, h0]
+  omega
+
+/-- **`unanimous_sync_invariant` for a non-degenerate table**: additionally, every message ever broadcast comes from
+a table member with positive scaled power. -/
+theorem unanimous_sync_invariant_pos (tbl : Table) (H : List Pid) (c : Chain) (cfg : Pid → Cfg)
+    (hnd : H.Nodup) (hin : ∀ p ∈ H, p ∈ tbl.entries.map (·.1)) (hT : 0 < tbl.total)
+    (hpow : ∀ p ∈ H, 0 < tbl.power p)
+    (hq : strongQ tbl ((H.map tbl.power).sum) = true) (hc : c ≠ []) (ops : List NetOp)
+    (hexec : execOk (initNet tbl H cfg (fun _ => c)) ops = true)
+    (hsync : SyncOrdered (initNet tbl H cfg (fun _ => c)) ops) :
+    (H ≠ [] ∧ 3 * (H.map tbl.power).sum ≥ 2 * tbl.total) ∧
+    (runNet (initNet tbl H cfg (fun _ => c)) ops).fails = [] ∧
+    (∀ m ∈ (runNet (initNet tbl H cfg (fun _ => c)) ops).pool,
+      m.sender ∈ H ∧ 0 < tbl.power m.sender ∧ m.value ≠ [] ∧ UnanimousMsg c m) ∧
+    (∀ p s, (p, s) ∈ (runNet (initNet tbl H cfg (fun _ => c)) ops).nodes →
+      s.round = 0 ∧ ∀ d, s.termination = some d → d.value = c) := by
+  obtain ⟨h1, h2, _, h4⟩ := unanimous_sync_invariant tbl H c cfg hnd hin hq hc ops hexec hsync
+  have hn := quorum_nondegenerate tbl H hT hq
+  refine ⟨⟨hn.1, hn.2.2⟩, h1, ?_, h4⟩
+  intro m hm
+  obtain ⟨hs, hu⟩ := h2 m hm
+  exact ⟨hs, hpow _ hs, by rw [hu.2.1]; exact hc, hu⟩
+
+/-- **`unanimous_sync_decides` for a non-degenerate table.** -/
+theorem unanimous_sync_decides_pos (tbl : Table) (H : List Pid) (c : Chain) (cfg : Pid → Cfg)
+    (hnd : H.Nodup) (hin : ∀ p ∈ H, p ∈ tbl.entries.map (·.1)) (hT : 0 < tbl.total)
+    (hpow : ∀ p ∈ H, 0 < tbl.power p)
+    (hq : strongQ tbl ((H.map tbl.power).sum) = true) (hc : c ≠ []) (ops : List NetOp)
+    (hexec : execOk (initNet tbl H cfg (fun _ => c)) ops = true)
+    (hsync : SyncOrdered (initNet tbl H cfg (fun _ => c)) ops)
+    (hcomplete : complete (runNet (initNet tbl H cfg (fun _ => c)) ops) = true)
+    (htimers : 2 ≤ c.length ∨ timersFired (runNet (initNet tbl H cfg (fun _ => c)) ops) = true) :
+    (∀ m ∈ (runNet (initNet tbl H cfg (fun _ => c)) ops).pool, m.sender ∈ H ∧ 0 < tbl.power m.sender) ∧
+    (∃ p, p ∈ H) ∧
+    (∀ p ∈ H, ∃ s, (p, s) ∈ (runNet (initNet tbl H cfg (fun _ => c)) ops).nodes) ∧
+    ∀ p s, (p, s) ∈ (runNet (initNet tbl H cfg (fun _ => c)) ops).nodes →
+      s.phase = .terminated ∧ ∃ d, s.termination = some d ∧ d.value = c := by
+  obtain ⟨⟨hne, _⟩, _, h2, _⟩ :=
+    unanimous_sync_invariant_pos tbl H c cfg hnd hin hT hpow hq hc ops hexec hsync
+  obtain ⟨h5, h6⟩ := unanimous_sync_decides tbl H c cfg hnd hin hq hc ops hexec hsync hcomplete htimers
+  refine ⟨fun m hm => ⟨(h2 m hm).1, (h2 m hm).2.1⟩, ?_, h5, h6⟩
+  cases H with
+  | nil => exact absurd rfl hne
+  | cons a l => exact ⟨a, List.mem_cons_self⟩
+
+/-- **`unanimous_timed_decides` for a non-degenerate table.** -/
+theorem unanimous_timed_decides_pos (tbl : Table) (H : List Pid) (c : Chain) (cfg : Pid → Cfg) (Δ : Int)
+    (hnd : H.Nodup) (hin : ∀ p ∈ H, p ∈ tbl.entries.map (·.1)) (hT : 0 < tbl.total)
+    (hpow : ∀ p ∈ H, 0 < tbl.power p)
+    (hq : strongQ tbl ((H.map tbl.power).sum) = true) (hlen : 2 ≤ c.length) (ops : List NetOp)
+    (hexec : execOk (initNet tbl H cfg (fun _ => c)) ops = true)
+    (htimed : TimedSync Δ (initNet tbl H cfg (fun _ => c)) ops) :
+    ((runNet (initNet tbl H cfg (fun _ => c)) ops).fails = [] ∧
+     ∀ m ∈ (runNet (initNet tbl H cfg (fun _ => c)) ops).pool,
+       m.sender ∈ H ∧ 0 < tbl.power m.sender ∧ UnanimousMsg c m) ∧
+    (complete (runNet (initNet tbl H cfg (fun _ => c)) ops) = true →
+      (∃ p, p ∈ H) ∧
+      (∀ p ∈ H, ∃ s, (p, s) ∈ (runNet (initNet tbl H cfg (fun _ => c)) ops).nodes) ∧
+      ∀ p s, (p, s) ∈ (runNet (initNet tbl H cfg (fun _ => c)) ops).nodes →
+        s.phase = .terminated ∧ ∃ d, s.termination = some d ∧ d.value = c) := by
+  obtain ⟨⟨h1, h2⟩, h3⟩ := unanimous_timed_decides tbl H c cfg Δ hnd hin hq hlen ops hexec htimed
+  have hne := (quorum_nondegenerate tbl H hT hq).1
+  refine ⟨⟨h1, fun m hm => ⟨(h2 m hm).1, hpow _ (h2 m hm).1, (h2 m hm).2⟩⟩, fun hc => ⟨?_, h3 hc⟩⟩
+  cases H with
+  | nil => exact absurd rfl hne
+  | cons a l => exact ⟨a, List.mem_cons_self⟩
+
+/-! ### non-vacuity, and what goes wrong without the two hypotheses -/
+
+/-- the `_pos` hypotheses hold of the concrete executions of sections `Sync` / `Timed` -/
+example : 0 < syTbl.total ∧ (∀ p ∈ [1, 2, 3], 0 < syTbl.power p) ∧
+    0 < tyTbl.total ∧ (∀ p ∈ [1, 2, 3], 0 < tyTbl.power p) := by decide
+
+example : ∀ m ∈ (runNet (syNet [7, 8]) syOps).pool, m.sender ∈ [1, 2, 3] ∧ 0 < syTbl.power m.sender := by
+  have h1 : [1, 2, 3].Nodup := by decide
+  have h2 : ∀ p ∈ [1, 2, 3], p ∈ syTbl.entries.map (·.1) := by decide
+  have h3 : 0 < syTbl.total := by decide
+  have h4 : ∀ p ∈ [1, 2, 3], 0 < syTbl.power p := by decide
+  have h5 : strongQ syTbl (([1, 2, 3].map syTbl.power).sum) = true := by decide
+  have h6 : execOk (syNet [7, 8]) syOps = true := by decide
+  have h7 : SyncOrdered (syNet [7, 8]) syOps := by unfold SyncOrdered; decide
+  have h8 : complete (runNet (syNet [7, 8]) syOps) = true := by decide
+  exact (unanimous_sync_decides_pos syTbl [1, 2, 3] [7, 8] (fun _ => syCfg) h1 h2 h3 h4 h5 (by decide) syOps h6 h7 h8
+    (Or.inl (by decide))).1
+
+/-- member 3 has zero scaled power -/
+def zTbl : Table := { entries := [(1, 10), (2, 10), (3, 0)] }
+def zNet : Net := initNet zTbl [1, 2, 3] (fun _ => syCfg) (fun _ => [7, 8])
+
+/-- **E4 (zero-power member).** All hypotheses of `unanimous_sync_decides` other than completeness hold; `execOk` admits
+handing member 3's QUALITY to node 1, whose tally records sender 3; yet that message is `MsgValid` under **no** `W`
+(the validator rejects zero-power senders), and `complete` *demands* that 3's messages be handed to everybody (an
+execution that hands over everything except 3's messages is not complete). -/
+example :
+    [1, 2, 3].Nodup ∧ (∀ p ∈ [1, 2, 3], p ∈ zTbl.entries.map (·.1)) ∧
+    strongQ zTbl (([1, 2, 3].map zTbl.power).sum) = true ∧
+    execOk zNet [.start 1 0, .start 2 0, .start 3 0, .deliver 1 1 (syQ [7, 8] 3)] = true ∧
+    SyncOrdered zNet [.start 1 0, .start 2 0, .start 3 0, .deliver 1 1 (syQ [7, 8] 3)] ∧
+    ((runNet zNet [.start 1 0, .start 2 0, .start 3 0, .deliver 1 1 (syQ [7, 8] 3)]).nodes.map
+      (fun e => (e.1, e.2.quality.senders))) = [(1, [3]), (2, []), (3, [])] ∧
+    (∀ W, ¬ MsgValid W zTbl (syQ [7, 8] 3)) ∧
+    complete (runNet zNet ([.start 1 0, .start 2 0, .start 3 0] ++ syAll 1 (syQ [7, 8] 1) ++ syAll 1 (syQ [7, 8] 2)))
+      = false ∧
+    ¬ (∀ p ∈ [1, 2, 3], 0 < zTbl.power p) := by
+  refine ⟨by decide, by decide, by decide, by decide, ?_, by decide, ?_, by decide, by decide⟩
+  · unfold SyncOrdered; decide
+  · intro W h
+    exact absurd h.2.1 (by decide)
+
+/-- an all-zero table -/
+def oTbl : Table := { entries := [(1, 0), (2, 0), (3, 0)] }
+def oNet : Net := initNet oTbl [1, 2, 3] (fun _ => syCfg) (fun _ => [7, 8])
+def oOps : List NetOp :=
+  [.start 1 0, .deliver 1 1 (syQ [7, 8] 1), .deliver 1 2 (syP [7, 8] 1),
+   .deliver 1 3 { sender := 1, round := 0, phase := .commit, value := [7, 8],
+                  just := some { round := 0, phase := .prepare, value := [7, 8], signers := [0] } },
+   .deliver 1 4 { sender := 1, round := 0, phase := .decide, value := [7, 8],
+                  just := some { round := 0, phase := .commit, value := [7, 8], signers := [0] } }]
+
+/-- **E4 (zero total).** With an all-zero table `hq` is `strongQ _ 0 = true`; the hypotheses of
+`unanimous_sync_invariant` hold, and node 1 **terminates on its own four messages alone**, nodes 2 and 3 not even
+started — a "strong quorum" of zero power. `0 < tbl.total` excludes it. -/
+example :
+    oTbl.total = 0 ∧ strongQ oTbl (([1, 2, 3].map oTbl.power).sum) = true ∧
+    (∀ p ∈ [1, 2, 3], p ∈ oTbl.entries.map (·.1)) ∧
+    execOk oNet oOps = true ∧ SyncOrdered oNet oOps ∧
+    (runNet oNet oOps).nodes.map (fun e => (e.1, e.2.phase, e.2.termination.map (fun d => (d.value, d.signers)))) =
+      [(1, .terminated, some ([7, 8], [0])), (2, .initial, none), (3, .initial, none)] := by
+  refine ⟨by decide, by decide, by decide, by decide, ?_, by decide⟩
+  unfold SyncOrdered; decide
+
+end Audit2Sync
+
 end F3.Props.C02
